@@ -1160,8 +1160,8 @@ Proof.
 Qed.
 
 (* ---------- Reed-Solomon (FEC 5, FEC 129) ---------- *)
-Lemma rs_sized_trivial oti x : ro_fec oti = FRS28 \/ ro_fec oti = FRS28US -> sized oti x.
-Proof. intros H F. destruct H as [X|X]; rewrite X in F; discriminate. Qed.
+(* D47: the payload of a genuine Reed-Solomon packet is kept by the block decoder when the sender's repair symbols
+   have at most E bytes (rs_rep_sized; the source symbols are symbols of the padded object) *)
 
 (* S1rs: the FDT instance (one packet of TOI 0) first, then the packets of the Reed-Solomon object (source and
    repair symbols) in any order with any duplication: premises of rs_recoverable_delivers (max = cf_max_cache cfg)
@@ -1172,7 +1172,7 @@ Theorem rs_session_fdt_first_delivers E parse_fdt cfg oti content rep toi md5 no
   fdt_pkt_ok pf id foti d -> parse_fdt d = Some inst -> fdt_live cfg inst pf now ->
   fdt_entry_for (fi_files inst) (fi_oti inst) toi oti L md5 ->
   writer_accepts E toi -> writes_succeed E toi -> md5_good E content md5 ->
-  rs_oracle_mds E oti content rep toi ->
+  rs_oracle_mds E oti content rep toi -> rs_rep_sized oti rep ->
   rs_mem_need oti L <= cf_max_cache cfg -> nb_blocks_of oti L <= 4097 ->
   Forall (fun p => a_toi p = toi) pkts ->
   Forall (fun p => rs_genuine_pkt oti content rep p = true) pkts ->
@@ -1181,7 +1181,7 @@ Theorem rs_session_fdt_first_delivers E parse_fdt cfg oti content rep toi md5 no
   let '(_, r, c) := recv_run E parse_fdt cfg recv0 (map (fun p => RvPush p now) (pf :: pkts)) ctx0 in
   session_delivered cfg inst content toi r c.
 Proof.
-  intros L (Hrsf & He & Hb & HL & Hu) Hrs Htoi Hpf Hparse Hlive (f & F1 & F2 & F3 & F4 & F5) Hacc Hwr Hmd5 Hor Hmax Hn T G Cl Rec.
+  intros L (Hrsf & He & Hb & HL & Hu) Hrs Htoi Hpf Hparse Hlive (f & F1 & F2 & F3 & F4 & F5) Hacc Hwr Hmd5 Hor Hrz Hmax Hn T G Cl Rec.
   destruct (rs_is_cls oti Hrsf) as [Hcls Hfec].
   destruct (partition_of oti L) as [[[al as_] nal] n] eqn:Hpart.
   pose proof (top_sound E oti content rep toi al as_ nal n Hcls He Hb HL Hpart (rs_oracle_mds_sound _ _ _ _ _ Hor)) as Hsound.
@@ -1195,7 +1195,7 @@ Proof.
     apply (rs_blocks_ok_spec oti L); assumption. }
   assert (G' : Forall (genr oti content rep al as_ nal n) pkts).
   { pose proof (rs_genuine_pkt_spec oti content rep al as_ nal n pkts Hpart G) as G1. eapply Forall_impl; [|exact G1].
-    intros p Hp. split; [exact Hp|apply rs_sized_trivial; exact Hrsf]. }
+    intros p Hp. split; [exact Hp|exact (rs_genuine_sized oti content rep al as_ nal n p Hrsf Hrz Hp)]. }
   pose proof (rs_first_core E parse_fdt cfg oti content rep toi md5 al as_ nal n now Hfec He Hb HL Hu Hpart' Htoi Hsound HM Nc Hacc
                 id inst f F1 F2 F3 F4 F5 pf foti d Hpf Hparse Hlive pkts G' T) as D.
   assert (D' : let '(_, r, c) := recv_run E parse_fdt cfg recv0 (map (fun p => RvPush p now) (pf :: pkts)) ctx0 in
@@ -1217,7 +1217,7 @@ Theorem rs_session_fdt_late_delivers_any_flag_before_fdt E parse_fdt cfg oti con
   fdt_pkt_ok pf id foti d -> parse_fdt d = Some inst -> fdt_live cfg inst pf now ->
   fdt_entry_for (fi_files inst) (fi_oti inst) toi oti L md5 ->
   writer_accepts E toi -> writes_succeed E toi -> md5_good E content md5 ->
-  rs_oracle_mds E oti content rep toi ->
+  rs_oracle_mds E oti content rep toi -> rs_rep_sized oti rep ->
   rs_mem_need oti L <= cf_max_cache cfg -> nb_blocks_of oti L <= 4097 ->
   Forall (fun p => a_toi p = toi) (pkts1 ++ pkts2) ->
   Forall (fun p => rs_genuine_pkt oti content rep p = true) (pkts1 ++ pkts2) ->
@@ -1227,7 +1227,7 @@ Theorem rs_session_fdt_late_delivers_any_flag_before_fdt E parse_fdt cfg oti con
   let '(_, r, c) := recv_run E parse_fdt cfg recv0 (map (fun p => RvPush p now) (pkts1 ++ pf :: pkts2)) ctx0 in
   session_delivered cfg inst content toi r c.
 Proof.
-  intros L (Hrsf & He & Hb & HL & Hu) Hrs Htoi Hpf Hparse Hlive (f & F1 & F2 & F3 & F4 & F5) Hacc Hwr Hmd5 Hor Hmax Hn T G Pre1 Cl Rec.
+  intros L (Hrsf & He & Hb & HL & Hu) Hrs Htoi Hpf Hparse Hlive (f & F1 & F2 & F3 & F4 & F5) Hacc Hwr Hmd5 Hor Hrz Hmax Hn T G Pre1 Cl Rec.
   destruct (rs_is_cls oti Hrsf) as [Hcls Hfec].
   destruct (partition_of oti L) as [[[al as_] nal] n] eqn:Hpart.
   pose proof (top_sound E oti content rep toi al as_ nal n Hcls He Hb HL Hpart (rs_oracle_mds_sound _ _ _ _ _ Hor)) as Hsound.
@@ -1241,7 +1241,7 @@ Proof.
     apply (rs_blocks_ok_spec oti L); assumption. }
   assert (Gall : forall l, Forall (fun p => rs_genuine_pkt oti content rep p = true) l -> Forall (genr oti content rep al as_ nal n) l).
   { intros l Gl. pose proof (rs_genuine_pkt_spec oti content rep al as_ nal n l Hpart Gl) as G1. eapply Forall_impl; [|exact G1].
-    intros p Hp. split; [exact Hp|apply rs_sized_trivial; exact Hrsf]. }
+    intros p Hp. split; [exact Hp|exact (rs_genuine_sized oti content rep al as_ nal n p Hrsf Hrz Hp)]. }
   apply Forall_app in T. destruct T as [T1 T2]. apply Forall_app in G. destruct G as [G1 G2].
   pose proof (Gall _ G1) as G1'. pose proof (Gall _ G2) as G2'.
   assert (P1 : Forall (pktprer oti content rep toi al as_ nal n) pkts1).
@@ -1265,7 +1265,7 @@ Theorem rs_session_fdt_late_delivers E parse_fdt cfg oti content rep toi md5 now
   fdt_pkt_ok pf id foti d -> parse_fdt d = Some inst -> fdt_live cfg inst pf now ->
   fdt_entry_for (fi_files inst) (fi_oti inst) toi oti L md5 ->
   writer_accepts E toi -> writes_succeed E toi -> md5_good E content md5 ->
-  rs_oracle_mds E oti content rep toi ->
+  rs_oracle_mds E oti content rep toi -> rs_rep_sized oti rep ->
   rs_mem_need oti L <= cf_max_cache cfg -> nb_blocks_of oti L <= 4097 ->
   Forall (fun p => a_toi p = toi) (pkts1 ++ pkts2) ->
   Forall (fun p => rs_genuine_pkt oti content rep p = true) (pkts1 ++ pkts2) ->
@@ -1457,6 +1457,7 @@ Proof.
   - intros i. reflexivity.
   - exact I.
   - exact xor_dec_mds.
+  - exact exr_rep_sized.
   - vm_compute. discriminate.
   - vm_compute. discriminate.
   - repeat constructor.
@@ -1484,6 +1485,7 @@ Proof.
   - intros i. reflexivity.
   - exact I.
   - exact xor_dec_mds.
+  - exact exr_rep_sized.
   - vm_compute. discriminate.
   - vm_compute. discriminate.
   - repeat constructor.
@@ -1549,6 +1551,7 @@ Proof.
   - intros i. reflexivity.
   - exact I.
   - exact xor_dec_mds.
+  - exact exr_rep_sized.
   - vm_compute. discriminate.
   - vm_compute. discriminate.
   - repeat constructor.
@@ -1588,6 +1591,7 @@ Proof.
   - intros i. reflexivity.
   - exact I.
   - exact xor_dec_mds_129.
+  - exact exu_rep_sized.
   - vm_compute. discriminate.
   - vm_compute. discriminate.
   - repeat constructor.
